@@ -10,7 +10,7 @@ Types are tuples:
   ("st", name)               struct reference
 """
 
-SCALAR_SIZE = {"f32": 4, "i32": 4, "u32": 4, "f64": 8, "bool": 4}
+SCALAR_SIZE = {"f32": 4, "i32": 4, "u32": 4, "f64": 8, "bool": 4, "i64": 8, "u64": 8}
 
 
 def S(kind):
@@ -197,7 +197,9 @@ def reachable_structs(t, structs, acc=None):
 GLAM_VEC = {("f32", 2): "glam::Vec2", ("f32", 3): "glam::Vec3", ("f32", 4): "glam::Vec4",
             ("f64", 2): "glam::DVec2", ("f64", 3): "glam::DVec3", ("f64", 4): "glam::DVec4",
             ("u32", 2): "glam::UVec2", ("u32", 3): "glam::UVec3", ("u32", 4): "glam::UVec4",
-            ("i32", 2): "glam::IVec2", ("i32", 3): "glam::IVec3", ("i32", 4): "glam::IVec4"}
+            ("i32", 2): "glam::IVec2", ("i32", 3): "glam::IVec3", ("i32", 4): "glam::IVec4",
+            ("u64", 2): "glam::U64Vec2", ("u64", 3): "glam::U64Vec3", ("u64", 4): "glam::U64Vec4",
+            ("i64", 2): "glam::I64Vec2", ("i64", 3): "glam::I64Vec3", ("i64", 4): "glam::I64Vec4"}
 GLAM_MAT = {("f32", 2): "glam::Mat2", ("f32", 3): "glam::Mat3", ("f32", 4): "glam::Mat4",
             ("f64", 2): "glam::DMat2", ("f64", 3): "glam::DMat3", ("f64", 4): "glam::DMat4"}
 
